@@ -658,7 +658,12 @@ func runC15(c *core.Ctx, ck *Check) {
 				return gen.One(gname, r)
 			}
 			rng := func() string {
-				switch r.IntN(8) {
+				switch r.IntN(9) {
+				case 8:
+					// a complete VERS URI where the ecosystem's native range is expected, the scheme being this ecosystem's own
+					// name, its VERS scheme name or another one: the native parser's verdict must be the CLI's
+					sc := gen.Pick(r, j.name, gname, Schemes[r.IntN(len(Schemes))])
+					return "vers:" + sc + "/" + gen.Pick(r, ">=", "<", "=", "!=") + gen.One(gname, r) + gen.Pick(r, "", "|<"+gen.One(gname, r), "|!="+gen.One(gname, r))
 				case 0:
 					return gen.Hostile(gen.RangeOne(gname, r), r)
 				case 1:
